@@ -468,12 +468,52 @@ fn two_agent_cases(run: &mut Run, rng: &mut Rng, rt: &tokio::runtime::Runtime, t
     }
 }
 
+/// (G) RFC 8445 §7.3.1.3: a peer-reflexive remote candidate learnt from an (authenticated) connectivity check gets
+/// the PRIORITY attribute of that check — otherwise the two agents hold different priorities for the same
+/// candidate and compute different pair priorities (the presupposition of the "same ordering" clause).
+pub fn prflx_priority_case(run: &mut Run, rt: &tokio::runtime::Runtime, controlling: bool, tcp: bool, prio: u32) {
+    use rustrtc::transports::ice::stun::{StunAttribute, StunMessage};
+    let role = if controlling { IceRole::Controlling } else { IceRole::Controlled };
+    let case = format!("prflx {} {} {prio}", if controlling { "controlling" } else { "controlled" }, tcp as u8);
+    let t = mk_transport_t(role, 50);
+    let lp = t.local_parameters();
+    let l = Arc::new(rt.block_on(tokio::net::UdpSocket::bind("127.0.0.1:0")).unwrap());
+    let lc = IceCandidate::host(l.local_addr().unwrap(), 1);
+    t.verif_add_local_udp(lc.clone(), l.clone());
+    let src: SocketAddr = "127.0.0.1:45678".parse().unwrap();
+    let mut m = StunMessage::binding_request([7; 12], Some("peer"));
+    m.attributes.push(StunAttribute::Username(format!("{}:{REMOTE_UFRAG}", lp.username_fragment)));
+    m.attributes.push(StunAttribute::Priority(prio));
+    m.attributes.push(if controlling { StunAttribute::IceControlled(1) } else { StunAttribute::IceControlling(1) });
+    let bytes = m.encode(Some(lp.password.as_bytes()), true).unwrap();
+    let wrapper = if tcp {
+        rt.block_on(async { let li = tokio::net::TcpListener::bind("127.0.0.1:0").await.unwrap(); let c = tokio::net::TcpStream::connect(li.local_addr().unwrap()).await.unwrap();
+            let (s, _) = li.accept().await.unwrap(); drop(c); let (r, w) = s.into_split();
+            IceSocketWrapper::TcpStream(Arc::new(tokio::sync::Mutex::new(r)), Arc::new(tokio::sync::Mutex::new(w)), src) })
+    } else { IceSocketWrapper::Udp(l.clone()) };
+    rt.block_on(t.verif_handle_packet(&bytes, src, wrapper));
+    match t.remote_candidates().iter().find(|c| c.address == src) {
+        None => run.fail("codec:pair-priority:peer-reflexive-candidate-not-learnt", &case, ""),
+        Some(c) => {
+            if c.typ != IceCandidateType::PeerReflexive { run.fail("codec:pair-priority:learnt-candidate-is-not-peer-reflexive", &case, &format!("{:?}", c.typ)); }
+            if c.priority != prio { run.fail("codec:pair-priority:peer-reflexive-candidate-priority-is-not-the-PRIORITY-attribute", &case, &format!("candidate priority {} vs PRIORITY {prio}", c.priority)); }
+            // what the sender (its local candidate has priority `prio`) and this agent compute for the pair
+            let theirs = rfc_pair_priority(!controlling, prio, lc.priority);
+            let ours = rustrtc::transports::ice::IceCandidatePair::new(lc.clone(), c.clone()).priority(role);
+            if theirs != ours { run.fail("codec:pair-order:agents-compute-different-priority-for-the-same-pair:peer-reflexive", &case, &format!("{theirs} vs {ours}")); }
+        }
+    }
+    run.count("agent_prflx_priority_cases");
+    t.stop();
+}
+
 pub fn replay(run: &mut Run, case: &str) -> bool {
     let f: Vec<&str> = case.split(' ').collect();
     let rt = tokio::runtime::Builder::new_current_thread().enable_all().build().unwrap();
     match f[0] {
         "select" if f.len() == 7 => { selection_case(run, &rt, f[1] == "controlling", f[2].parse().unwrap(), f[3].parse().unwrap(), f[4].parse().unwrap(), f[5].parse().unwrap(), f[6] == "1"); true }
         "tcpcheck" | "tcp-check" if f.len() == 4 => { tcp_check_case(run, &rt, f[1] == "controlling", f[2] == "1", f[3] == "1"); true }
+        "prflx" if f.len() == 4 => { prflx_priority_case(run, &rt, f[1] == "controlling", f[2] == "1", f[3].parse().unwrap()); true }
         "agentreq" if f.len() == 3 => { keepalive_probe_case(run, &rt, f[1], f[2] == "controlling"); true }
         _ => false,
     }
@@ -487,6 +527,7 @@ pub fn run_all(run: &mut Run, rng: &mut Rng, thorough: bool) {
     selection_cases(run, rng, &rt, thorough);
     for controlling in [true, false] {
         for (synth, respond) in [(false, false), (false, true), (true, true)] { if synth && !controlling { continue; } tcp_check_case(run, &rt, controlling, synth, respond); }
+        for tcp in [false, true] { for prio in [2130706431u32, 1694498815, 16777215, 1, rng.next() as u32] { prflx_priority_case(run, &rt, controlling, tcp, prio); } }
         for kind in ["keepalive", "bare", "probe"] { for _ in 0..(if thorough { 10 } else { 2 }) { keepalive_probe_case(run, &rt, kind, controlling); } }
     }
 }
